@@ -815,9 +815,115 @@ func genCase(rng *RNG, stream string, thorough bool) *Case {
 	c := &Case{Stream: stream, Mode: "http"}
 	c.V4, c.V6, c.Raw = genTarget(rng, opt)
 	c.Store = deriveStore(rng, mergeTarget(c.V4, c.V6, c.Raw), opt)
+	if stream == "idsuffix" {
+		addIdSuffix(rng, c)
+	}
 	c.PageSize = []int{0, 0, 1, 2, 3, 50}[rng.Intn(6)]
 	if rng.Chance(12) {
 		c.Mode = "files"
 	}
 	return c
+}
+
+// addIdSuffix: the target (raw file) defines groups X, X-1, X-2 … and rules Y, Y-1, … in a random
+// list order while the device holds objects named X and Y (sometimes X-1, Y-1 as well) with other
+// content, so that the renamed ids X-i / Y-i chosen by genUniq*Names must avoid the other names of
+// the target in BOTH list orders.  Every such group is used by exactly one new rule, so each one has
+// to be created under its (possibly renamed) id.
+func addIdSuffix(rng *RNG, c *Case) {
+	pid := c.V4.Policies[0].Id
+	if c.Raw == nil {
+		c.Raw = &Config{}
+	}
+	var rp *Policy
+	for i := range c.Raw.Policies {
+		if c.Raw.Policies[i].Id == pid {
+			rp = &c.Raw.Policies[i]
+		}
+	}
+	if rp == nil {
+		c.Raw.Policies = append(c.Raw.Policies, Policy{Id: pid})
+		rp = &c.Raw.Policies[len(c.Raw.Policies)-1]
+	}
+	X := Pick(rng, []string{"Netspoc-dmz", "Netspoc-lan", "Netspoc-srv"})
+	Y := Pick(rng, []string{"deny", "mgmt", "permit"})
+	n := 2 + rng.Intn(2)
+	gids := []string{X}
+	rids := []string{Y}
+	for i := 1; i < n; i++ {
+		gids = append(gids, fmt.Sprintf("%s-%d", X, i))
+		rids = append(rids, fmt.Sprintf("%s-%d", Y, i))
+	}
+	if rng.Chance(30) { // a gap: X, X-2
+		gids[len(gids)-1] = fmt.Sprintf("%s-%d", X, n)
+	}
+	// list order: ascending, descending or shuffled
+	switch rng.Intn(3) {
+	case 1:
+		for i, j := 0, len(gids)-1; i < j; i, j = i+1, j-1 {
+			gids[i], gids[j] = gids[j], gids[i]
+		}
+	case 2:
+		Shuffle(rng, gids)
+	}
+	switch rng.Intn(3) {
+	case 1:
+		for i, j := 0, len(rids)-1; i < j; i, j = i+1, j-1 {
+			rids[i], rids[j] = rids[j], rids[i]
+		}
+	case 2:
+		Shuffle(rng, rids)
+	}
+	pool := pickAddrs(rng, addrsV4, len(addrsV4))
+	for i, gid := range gids {
+		c.Raw.Groups = append(c.Raw.Groups, Group{Id: gid, ExprId: "id", RType: "IPAddressExpression",
+			Addrs: []string{pool[2*i], pool[2*i+1]}})
+	}
+	for i, rid := range rids {
+		rp.Rules = append(rp.Rules, Rule{Id: rid, Direction: "IN", Action: "DROP", Seq: 50 + i, Scope: []string{scopes[0]},
+			IPProto: "IPV4", Service: "ANY", Src: gpath(gids[i%len(gids)]), Dst: "ANY"})
+	}
+	rp.Rules = uniqueRuleIds(rp.Rules)
+	// the device: objects with the base names (and sometimes the first suffixed ones), other content
+	devG := []string{X}
+	devR := []string{Y}
+	if rng.Chance(35) {
+		devG = append(devG, X+"-1")
+	}
+	if rng.Chance(35) {
+		devR = append(devR, Y+"-1")
+	}
+	var dp *Policy
+	for i := range c.Store.Policies {
+		if c.Store.Policies[i].Id == pid {
+			dp = &c.Store.Policies[i]
+		}
+	}
+	has := func(id string) bool {
+		for _, g := range c.Store.Groups {
+			if g.Id == id {
+				return true
+			}
+		}
+		return false
+	}
+	for i, gid := range devG {
+		if !has(gid) {
+			c.Store.Groups = append(c.Store.Groups, Group{gid, "id", "IPAddressExpression", []string{pool[10+i]}})
+		}
+	}
+	if dp != nil {
+		for i, rid := range devR {
+			dup := false
+			for _, r := range dp.Rules {
+				if r.Id == rid {
+					dup = true
+				}
+			}
+			if !dup && len(dp.Rules) < 12 {
+				dp.Rules = append(dp.Rules, Rule{Id: rid, Direction: "OUT", Action: "REJECT", Seq: 90 + i, Scope: []string{scopes[0]},
+					IPProto: "IPV4", Service: "ANY", Src: gpath(devG[i%len(devG)]), Dst: "10.9.9.9", Rev: 1})
+			}
+		}
+	}
 }
